@@ -115,7 +115,7 @@ func TestC10(t *testing.T) {
 		return true
 	}
 	inputStreams(t, st, sc, check)
-	if cfg.Shard == 0 && cfg.Thorough() {
+	if cfg.Shard == 0 {
 		// sizes around 2^16 (PostgreSQL's limit of 65535 bind parameters is the kind of
 		// boundary a renderer may start to care about)
 		st.Stream("huge-inputs", false, "value lists and AND chains with 65535, 65536 and 70000 values")
@@ -130,7 +130,9 @@ func TestC10(t *testing.T) {
 			}
 			b.WriteString(")")
 			check("huge-inputs", mkIn(b.String(), "", 0))
-			check("huge-inputs", mkIn(strings.TrimSuffix(strings.Repeat("a:1 ", n), " "), "dflt", 0))
+			if cfg.Thorough() && n == 65536 { // quadratic in the parser: about a minute
+				check("huge-inputs", mkIn(strings.TrimSuffix(strings.Repeat("a:1 ", n), " "), "dflt", 0))
+			}
 		}
 	}
 }
